@@ -168,6 +168,27 @@ func init() {
 	// a layout that does not match is refused by sum; copy and sum-copy write every selected archive
 	add("C16", "C10", "C10.R2")
 	add("C16", "C08", "C08.R9~every-archive")
+	// round 11
+	// the fetch clamps to MaxRetention = step x points: a layout admitted although the product wraps has another retention
+	add("C04", "C07", "C07.R4~retention-31-bits")
+	// what a second handle reads after Sync is the page buffer's contents: the ring's phase is answered from there only
+	add("C05", "C06", "C06.R6~^baseInterval:always-reads-the-file")
+	// the same bytes as the reference writer: the propagation gate and the aggregates
+	add("C06", "C02", "C02.R3", "C02.R5")
+	// copy and sum-copy store coarser slots through the aggregates
+	add("C08", "C02", "C02.R5")
+	add("C11", "C02", "C02.R5")
+	// a layout every constructor accepts is reopened: the header read grows its buffer
+	add("C07", "C14", "C14.R5~retry-buffer")
+	add("C15", "C14", "C14.R5~retry-buffer")
+	// the item list of a remote sum-copy / sum-diff
+	add("C11", "C12", "C12.R6~^globItemsRemote:")
+	// a series read through a server compares like the one read from the directory
+	add("C12", "C08", "C08.R2~EqualTimeRangeAndStep")
+	// the commands work on the requested window
+	add("C16", "C09", "C08.R3~until-default")
+	add("C16", "C11", "C11.R1~flags-distinct")
+	add("C16", "C10", "C10.R6~flags-distinct")
 }
 
 func init() {
